@@ -234,7 +234,7 @@ func init() {
 	}
 	checks["c16"] = checkDef{"C16",
 		"(1) bucket names: every string of length ≤ 4 (thorough ≤ 7) over {a,0,.,-,A} plus structured random names (IP-like, length 1-65, mixed pieces) judged by utils.IsValidBucketName and by Model.BucketName (= Spec.BucketName.Valid by theorem); (2) lifecycle/settings programs: 2-5 buckets by three owners with random ownership/ACL/lock, then 10-40 random creates (incl. existing), deletes, ListBuckets (prefix, max-buckets, continuation token; admin and non-admin), put/get/delete of tags, policy, ACL, ownership controls, versioning, lock configuration, by four callers; both gateway processes are restarted before the final read-back of every setting. Non-trivial: names of length 3-63 / programs reaching a bucket; distinct by name / op list.",
-		[]checkFn{c16Names, c16Race, fam("settings-xattr-vdir", true, false, 1601, 60, 3000), fam("settings-sidecar", false, true, 1602, 20, 1000),
+		[]checkFn{c16Names, c16Race, fam("settings-xattr-vdir", true, false, 1601, 120, 3000), fam("settings-sidecar", false, true, 1602, 40, 1000),
 			func(a lib.Args, res *lib.Result) error {
 				return runPrograms(a, res, progOpts{name: "delete-nonempty", prop: "C16", programs: tierN(a, 14, 280), gen: c16DeleteProgram(false), nGateways: 1, classify: c16Classify, seedOff: 1603})
 			},
